@@ -14,10 +14,24 @@ POS_CLASSES = ['interior', 'end_a', 'end_b', 'near_out', 'mid_out', 'zero', 'L',
                'next_side', 'just_inside']
 
 
-def point_cases(max_ops=25, curves=None, time_classes=TIME_CLASSES, pos_classes=POS_CLASSES):
+POLYGONS = [
+    {'poly': [[0, 0], [2, 0], [2, 0.125], [0, 0.125], [0, 0]], 'closed': True},            # thin plate: arc length >> distance
+    {'poly': [[1, 1], [3, 1], [3, 2], [1, 2], [1, 1]], 'closed': True},                    # 2 x 1 rectangle off the origin
+    {'poly': [[0, 0], [3, 0], [3, 1], [2, 1], [2, 2], [0, 2], [0, 0]], 'closed': True},      # staircase
+    {'poly': [[0, 0], [1, 0], [1, 0.5], [2, 0.5]], 'closed': False},                         # open polyline with corners
+]
+
+
+def point_cases(max_ops=25, curves=None, time_classes=TIME_CLASSES, pos_classes=POS_CLASSES, polygons=False):
     kw = {} if curves is None else {'curves': curves}
+    specs = pairs.pair_specs(**kw)
+    if polygons:
+        # other polygons the curve class accepts (the evaluation only sees gamma and the parameter intervals)
+        poly = st.builds(lambda p, ts: {'kind': 'param', 'curve': p, 'ts': ts, 'xs': None}, st.sampled_from(POLYGONS),
+                         st.sampled_from([[0.0, 1.0], [0.0, 0.25], [0.0, 0.01, 0.02]]))
+        specs = st.one_of(specs, specs, specs, poly)
     return st.fixed_dictionaries({
-        'spec': pairs.pair_specs(**kw), 'ops': gens.histories(max_ops=max_ops, allow=('t', 'x', 'tx')),
+        'spec': specs, 'ops': gens.histories(max_ops=max_ops, allow=('t', 'x', 'tx')),
         'ei': st.integers(0, 10**6), 'tcl': st.sampled_from(list(time_classes)), 'tpar': st.floats(0.0, 1.0),
         'xcl': st.sampled_from(list(pos_classes)), 'xpar': st.floats(0.0, 1.0), 'xi': st.integers(0, 10**6),
         'side': st.sampled_from([-1, 1]),
